@@ -158,7 +158,7 @@ def c06_memload(prefix, store, load, changes):
 
 
 @replay
-def c04_cp(lat, lwl, loads, edges):
+def c04_cp(lat, lwl, loads, edges, twice=False):
     import networkx as nx
     from osaca.semantics.kernel_dg import KernelDG
     from osaca.parser import InstructionForm
@@ -177,6 +177,8 @@ def c04_cp(lat, lwl, loads, edges):
     for a, b, w in edges:
         dg.add_edge(a + 1, b + 1, latency=float(Fraction(w))); ew[(a, b)] = float(Fraction(w))
     k = object.__new__(KernelDG); k.kernel = kernel; k.dg = dg
+    if twice:
+        k.get_critical_path()
     cp = k.get_critical_path()
     got = sum(x.latency_cp for x in cp)
     best = [0.0] * n
